@@ -254,6 +254,24 @@ func Result(r *kit.Rng, o ResultOpts) vegeta.Result {
 		loc = time.FixedZone("", sec)
 	}
 	ts := time.Unix(0, TimestampNs(r)).In(loc)
+	// Go's own binary time codec (which gob uses) does not round-trip every zone offset: a NEGATIVE number of odd
+	// seconds is written as int8 and read back as uint8 (e.g. -5m16s comes back as -1m20s: same instant, another
+	// offset), and an offset that comes back within (-2m, -1m] cannot be encoded again at all ("unexpected zone
+	// offset"). A timestamp whose zone does not survive decode → encode in the standard library is not an input any
+	// of the properties quantifies over: fall back to the whole-minute offset.
+	if b, err := ts.MarshalBinary(); err == nil {
+		var u time.Time
+		if u.UnmarshalBinary(b) == nil {
+			if _, err2 := u.MarshalBinary(); err2 != nil {
+				_, off := ts.Zone()
+				z := off - off%60
+				if z == -60 {
+					z = -120 // -1 minute is the codec's marker for UTC and cannot be encoded either
+				}
+				ts = ts.In(time.FixedZone("", z))
+			}
+		}
+	}
 	code := uint16(uint64Edge(r))
 	if r.Chance(0.5) {
 		code = uint16(r.PickI64([]int64{0, 200, 201, 301, 404, 500, 503, 65535}))
